@@ -1,13 +1,13 @@
 (* Props/C09.v — property C09: dynamic linking information is exact, with or without
    section headers.  Only statements, closed by [exact]; proofs live in
-   Proofs/C09Tables.v, C09Tags.v, C09Hash.v (C09Examples.v: the inputs of the Examples).
+   Proofs/C09Tables.v, C09Tags.v, C09Hash.v, C09Views.v (C09Examples.v: the inputs of the Examples).
    Model: Model/C09Dynamic.v (transliteration of elf/dynamic.py, elf/hash.py
    get_number_of_symbols, the parts of elf/elffile.py, sections.py, relocation.py the
    Dynamic classes call; record layouts and decoding dicts are regenerated from the live
    code into Gen/ElfLayouts.v).  Meaning: Spec/C09Dyn.v (gABI dynamic section, hash
    tables, program header; GNU hash format). *)
 From PV Require Import Base.Outcome Base.Fmt Base.Enum Gen.ElfLayouts Spec.ElfGabi Spec.C09Dyn Model.C09Dynamic.
-From PV Require Import Proofs.C09Tables Proofs.C09Tags Proofs.C09Hash Proofs.C09Examples.
+From PV Require Import Proofs.C09Tables Proofs.C09Tags Proofs.C09Hash Proofs.C09Views Proofs.C09Examples.
 Open Scope string_scope.
 Open Scope list_scope.
 Open Scope Z_scope.
@@ -176,3 +176,27 @@ Example C09_count_from_hash_nonvacuous :
   sysv_valid true (seekz ([9] ++ ex_sysv) 1) 5 = true /\
   gnu_valid true true ex_gnu 4 = false /\ gnu_valid true true ex_gnu 6 = false.
 Proof. vm_compute. repeat split. Qed.
+
+(* ---- views_agree (tags and strings): for EVERY image satisfying the boolean consistency predicate
+   of Spec/C09Dyn.v (every dynamic pointer lies in a PT_LOAD whose file image contains the table; the
+   section headers describe the same bytes; the .dynamic section may lie at the segment's offset or
+   hold a copy elsewhere) and EVERY image that is its stripped form (e_shoff = e_shnum = e_shstrndx = 0,
+   same bytes behind the ELF header), the DynamicSection of the original, the DynamicSegment of the
+   original and the DynamicSegment of the stripped image all yield exactly the standard's reading:
+   the entries up to and including the first DT_NULL, string-valued tags resolved in the table that
+   the section link designates = the table DT_STRTAB points to *)
+Theorem C09_views_agree_tags : forall img img',
+  consistent_b img = true -> stripped_of_b img img' = true ->
+  exists d, describe img = Some d /\
+    section_tags img = Ok (expected_view img d) /\
+    segment_tags img = Ok (expected_view img d) /\
+    segment_tags img' = Ok (expected_view img d).
+Proof. exact views_agree_tags. Qed.
+Print Assumptions C09_views_agree_tags.
+
+Example C09_views_agree_nonvacuous :
+  consistent_b ex_img = true /\ stripped_of_b ex_img ex_img' = true /\ ex_img <> ex_img' /\
+  segment_tags ex_img' =
+  Ok [(EN "DT_NEEDED", 1, Some [108; 105; 98; 99]); (EN "DT_SONAME", 6, Some [102; 111; 111]);
+      (EN "DT_STRTAB", 4368, None); (EN "DT_NEEDED", 1, Some [108; 105; 98; 99]); (EN "DT_NULL", 0, None)].
+Proof. vm_compute. repeat split. discriminate. Qed.
